@@ -32,10 +32,12 @@ SF = 'src/alignment/segments_factory.py::'
 SEG = 'src/alignment/segments.py::'
 
 PLANS['C13'] = Plan(
-    'C13', [SF + '_AlignmentSegmentBuilder.getSegments', SEG + 'AlignmentSegment.create'], 'proof',
+    'C13', [SF + '_AlignmentSegmentBuilder.getSegments', SEG + 'AlignmentSegment.create', SF + 'AlignmentSegmentsFactory.getSegments',
+            SF + 'AlignmentSegmentsFactory.__init__'], 'proof',
     "The C13 statement is the postcondition of the real _AlignmentSegmentBuilder.getSegments (its four private methods inlined, "
     "one loop invariant with ghost prefix sums and a ghost break index per result); AlignmentSegment.create carries "
-    "'score = sum of member scores'. All obligations are discharged for every list length and every real-valued score. "
+    "'score = sum of member scores'; the public entry point AlignmentSegmentsFactory.getSegments (constructor + builder, thresholds passed in the right order) "
+    "carries the same statement, and the factory constructor raises ValueError exactly for minScore <= 0. All obligations are discharged for every list length and every real-valued score. "
     "A bounded cross-check (exhaustive short score sequences through the real factory against an independent reading of the "
     "statement) runs alongside; it supplies concrete failing inputs when an obligation stops discharging and is not counted as proof.",
     bounded=_lazy('bcheck.c13', 'bounded'), replay=_lazy('bcheck.c13', 'replay'),
@@ -75,18 +77,26 @@ AE = 'src/alignment/aligner.py::AlignerEngine.'
 AP = 'src/alignment/alignment_position.py::AlignedPair.'
 PLANS['C12'] = Plan(
     'C12', [AE + '__getReferencePositionsWithinRange', AE + '__getAlignedPairs', AP + '__deduplicateByKey', AP + 'deduplicate',
-            'src/correlation/optical_map.py::OpticalMap.getPositionsWithSiteIds'], 'other',
+            'src/correlation/optical_map.py::OpticalMap.getPositionsWithSiteIds', AE + '__getNotAlignedPositions', AE + 'align',
+            'lemma::C12::pairs_kept_by_the_query_keyed_pass_are_order_preserving',
+            'lemma::C12::mutually_strictly_nearest_labels_within_maxDistance_are_paired'], 'proof',
     "Proved for all inputs (deductive, each function against its contract, callers against callee contracts): the search window is exactly the "
     "reference labels with start-d <= position <= end+d (inclusive); the candidate list is exactly the (reference, query) pairs within maxDistance of "
     "the seed diagonal (inclusive) with offset = query position - (reference position - seed), in (reference, query) order (nested loops over "
     "dropwhile/takewhile, ghost row tables); __deduplicateByKey keeps per key the nearest candidate, first among ties, keys strictly increasing, every key "
     "represented (sorted/groupby/min assumed); deduplicate (two passes) is one-to-one on both label numbers and keeps mutually strictly nearest "
-    "candidates; label numbering and strand mirroring of getPositionsWithSiteIds. BOUNDED, not proved: the composition in AlignerEngine.align "
-    "(unpaired complement, final sort, order preservation) is checked on the real function over an exhaustive small lattice incl. ties, coincident labels, "
+    "candidates and only candidates; label numbering and strand mirroring of getPositionsWithSiteIds; __getNotAlignedPositions lists exactly the window / query labels "
+    "that occur in no kept pair (complement by label number, unpaired query positions carry the seed); AlignerEngine.align (glue, callers checked against callee "
+    "contracts, incl. that the query label list is ascending on both strands): the result is the kept pairs plus the unpaired positions sorted by position, every "
+    "window reference label and every query label is in a kept pair or listed unpaired, kept pairs use each label number at most once, every kept pair is within "
+    "maxDistance with offset = query - (reference - seed). Two LEMMAS over these contracts close the statement: pairs kept by the query-keyed pass are order "
+    "preserving - strictly, so coincident labels cannot both survive (midpoint argument over the completeness of the candidates; the reference-keyed pass only "
+    "removes pairs) - and labels that are strictly each other's nearest partner within maxDistance are paired. A bounded cross-check of the real "
+    "AlignerEngine.align on an exhaustive small lattice supplies replayable inputs and is not counted as proof: ties, coincident labels, "
     "labels exactly at maxDistance, empty windows, both strands and fragments with label-number offsets.",
     bounded=_lazy('bcheck.c12', 'bounded'), replay=_lazy('bcheck.c12', 'replay'),
-    technique='deductive (own VC generator + z3) for window, candidates, de-duplication, numbering; bounded exhaustive lattice for the composed AlignerEngine.align',
-    assumptions=['AlignerEngine.align composition (unpaired complement, final sorted(chain(...)), order preservation): bounded only'],
+    technique='deductive: own VC generator over the real AST + z3, all functions of the pairing step under contract, two lemmas over the contracts; bounded exhaustive lattice cross-check for replay',
+    assumptions=['precondition: label coordinates of both maps ascending (established by the CMAP reader - bounded, C17 - and preserved by trim / mirroring - proved)'],
 )
 
 PLANS['C14'] = Plan(
